@@ -18,6 +18,8 @@ PROBE_INC = os.path.join(ROOT, 'harness', 'c16_probe_cases.inc')
 TRANS_TSV = os.path.join(ROOT, 'gen', 'c16_transitive.tsv')
 EXPL_TSV = os.path.join(ROOT, 'gen', 'c16_explicit.tsv')
 EXTRA_TSV = os.path.join(ROOT, 'gen', 'c16_guards_extra.tsv')
+LIT_TSV = os.path.join(ROOT, 'gen', 'c16_literals.tsv')
+LEGAL_TSV = os.path.join(ROOT, 'gen', 'c16_legalnull.tsv')
 # exported entry points outside the files the property is anchored in (the quantifier says "every exported entry point")
 FILES_EXTRA = ['mem.c', 'options.c', 'file.c', 'debug.c', 'builtin_hashes.c']
 
@@ -153,6 +155,8 @@ def is_pointer_type(ty):
                    'stridx', 'memidx', 'listidx', 'cmp', 'sockfd', 'sockfamily', 'socktype', 'sockproto', 'ushort', 'uint', 'ulong',
                    'float', 'double', 'ustridx', 'sockaddr_len', 'size', 'fd', 'pthread', 'pthread_attr', 'pthread_mutex', 'pthread_cond'}
         return base not in scalars
+    if t in ('ctx_handler_t', 'spifconf_func_ptr_t', 'spifopt_abstract_handler_t', 'spifopt_helphandler_t'):      # function pointer typedefs
+        return True
     return False
 
 
@@ -416,6 +420,35 @@ def probe_rows(srcroot):
     print('probe rows', len(rows))
 
 
+def literals(srcroot):
+    """String literals a function compares one of its arguments with (str*cmp / BEG_STRCASECMP): values that steer the function onto another
+    path.  Frozen into gen/c16_literals.tsv; --emit gives the guarded rows of such a function companions whose string arguments are these."""
+    out = []
+    for f in FILES + FILES_EXTRA:
+        raw = open(os.path.join(srcroot, 'src', f), encoding='latin-1').read()
+        src = strip_config_conditionals(strip_comments(raw), os.path.join(srcroot, 'src', f))
+        for m in FUNC_RE.finditer(src):
+            name = m.group(2)
+            body = body_of(src, m.end() - 1)
+            lits = []
+            for c in re.finditer(r'\b(?:strcmp|strcasecmp|strncmp|strncasecmp|BEG_STRCASECMP)\s*\(', body):
+                depth, k = 1, c.end()
+                while k < len(body) and depth:
+                    depth += body[k] == '('
+                    depth -= body[k] == ')'
+                    k += 1
+                for q in re.findall(r'"((?:[^"\\]|\\.)*)"', body[c.end():k]):
+                    if q and q not in lits and len(q) < 40:
+                        lits.append(q)
+            if lits:
+                out.append((f, name, lits[:3]))
+    with open(LIT_TSV, 'w') as o:
+        o.write('# file\tfunction\tliterals the function compares an argument with (tools/gen_c16.py --literals)\n')
+        for f, n, l in out:
+            o.write('%s\t%s\t%s\n' % (f, n, '\t'.join(l)))
+    print('functions with literals', len(out))
+
+
 def load_rows(path=None):
     rows = []
     paths = [path] if path else [TSV] + [x for x in (EXTRA_TSV, TRANS_TSV, EXPL_TSV) if os.path.exists(x)]
@@ -472,6 +505,35 @@ def emit(probe=False):
         r['params'] = [('void *' if PRIVATE_TYPES.match(ty) else ty, nm) + (('priv:' + ty,) if PRIVATE_TYPES.match(ty) else ()) for ty, nm in r['params']]
         if PRIVATE_TYPES.match(r['rtype']):
             r['rtype'] = 'void *'
+    if not probe:
+        # companions: the same NULL argument, with (a) every other pointer parameter for which NULL is a legal value NULL as well,
+        # (b) the string arguments set to a literal the function compares an argument with.  A guard refuses before any of that matters.
+        legal = {}
+        if os.path.exists(LEGAL_TSV):
+            for l in open(LEGAL_TSV):
+                if l.startswith('#') or not l.strip():
+                    continue
+                a = l.rstrip('\n').split('\t')
+                legal.setdefault((a[1], a[2], a[3], int(a[4])), set()).add(int(a[7]))
+        lits = {}
+        if os.path.exists(LIT_TSV):
+            for l in open(LIT_TSV):
+                if l.startswith('#') or not l.strip():
+                    continue
+                a = l.rstrip('\n').split('\t')
+                lits[a[1]] = a[2:]
+        extra = []
+        for r in rows:
+            if r['guard'] == 'EXPLICIT_ALLNULL':
+                continue
+            also = sorted(p for p in legal.get((r['func'], r['route'], r['table'], r['slot']), ()) if p != r['np'] and p != r['onp'])
+            if also:
+                extra.append(dict(r, also_null=also))
+            strpos = [i for i, pp in enumerate(r['params']) if i != r['np'] and i != r['onp'] and pp[0].replace('const ', '').strip() in ('spif_charptr_t', 'char *', 'spif_classname_t')]
+            if strpos:
+                for lit in lits.get(r['func'], []):
+                    extra.append(dict(r, literal=lit, strpos=strpos))
+        rows = rows + extra
     out = []
     out.append('/* generated by tools/gen_c16.py --emit from gen/c16_guards.tsv -- do not edit */')
     skipped = []
@@ -490,12 +552,14 @@ def emit(probe=False):
             if ty == '...':
                 varargs = True
                 continue
-            if i == r['np'] or i == r['onp'] and r['vc'] == 'CMPE' or (r['guard'] == 'EXPLICIT_ALLNULL' and is_pointer_type(ty)):
+            if i == r['np'] or i == r['onp'] and r['vc'] == 'CMPE' or (r['guard'] == 'EXPLICIT_ALLNULL' and is_pointer_type(ty)) or i in r.get('also_null', ()):
                 args.append('(%s) 0' % ty)
                 decls.append(None)
                 continue
             # which positions are NULL: CMPL -> np NULL, other valid; CMPG -> np(=other) NULL...; handled through np only
             s = sample(orig, nm, r['func'])
+            if 'literal' in r and i in r['strpos']:
+                s = '(%s) vh_heapstr("%s")' % (ty, r['literal'])
             if s is None:
                 ok = False
                 break
@@ -565,7 +629,7 @@ def emit(probe=False):
         body.append('    c16_snap_check(res);\n}')
         out.append('\n'.join(body))
         desc = '%s %s(param %d %s = NULL%s) via %s expects %s' % (r['file'], r['func'], r['np'], params[r['np']][1],
-                                                                     ' and param %d NULL' % r['onp'] if vc == 'CMPE' else ' and every other pointer parameter NULL' if r['guard'] == 'EXPLICIT_ALLNULL' else '',
+                                                                     ' and param %d NULL' % r['onp'] if vc == 'CMPE' else ' and every other pointer parameter NULL' if r['guard'] == 'EXPLICIT_ALLNULL' else (' and the NULL-tolerant parameter(s) %s NULL as well' % ','.join(str(x) for x in r['also_null'])) if r.get('also_null') else (' with string argument(s) \\"%s\\"' % r['literal'].replace('\\', '\\\\')) if 'literal' in r else '',
                                                                      r['route'] if r['route'] == 'direct' else '%s[%d]' % (r['table'], r['slot']), vc)
         table.append('    { c16_case_%d, "%s", "%s", "%s", %d },' % (n, r['func'], desc.replace('"', "'"), vc, 1 if has_scalar else 0))
         n += 1
@@ -603,6 +667,8 @@ if __name__ == '__main__':
         freeze(a[1] if len(a) > 1 else '/repo')
     elif a and a[0] == '--freeze-extra':
         freeze(a[1] if len(a) > 1 else '/repo', FILES_EXTRA, EXTRA_TSV)
+    elif a and a[0] == '--literals':
+        literals(a[1] if len(a) > 1 else '/repo')
     elif a and a[0] == '--emit':
         emit()
     elif a and a[0] == '--probe-rows':
